@@ -161,8 +161,11 @@ def array_layout(spec, mem, off):
     }
 
 
-def item_address(spec, mem, off, lay, idx):
-    lin = sum(i * s for i, s in zip(idx, lay["strides"]))
+def item_address(spec, mem, off, lay, idx, header_strides=False):
+    """header_strides=True: use the strides stored in the header where the layout has them (the documented address
+    expression of C02 is in terms of the header words, whatever they are)"""
+    st = lay["header_strides"] if header_strides and lay["header_strides"] is not None else lay["strides"]
+    lin = sum(i * s for i, s in zip(idx, st))
     if lay["table_offset"] is not None:
         rel = i64(mem, off + lay["table_offset"] + lin)
         return off + rel
@@ -441,7 +444,7 @@ def encode(spec, value):
 # --------------------------------------------------------------------------
 
 
-def locate(spec, mem, off, steps):
+def locate(spec, mem, off, steps, header_strides=False):
     """steps: ("field", name) | ("index", tuple) | ("deref",)  -> (spec, address) or (None, None) for null"""
     for st in steps:
         k = spec["k"]
@@ -451,7 +454,7 @@ def locate(spec, mem, off, steps):
             spec = dict(spec["fields"])[st[1]] if not isinstance(spec["fields"], dict) else spec["fields"][st[1]]
         elif st[0] == "index":
             lay = array_layout(spec, mem, off)
-            off = item_address(spec, mem, off, lay, st[1])
+            off = item_address(spec, mem, off, lay, st[1], header_strides)
             spec = spec["item"]
         elif st[0] == "deref":
             rel = i64(mem, off)
@@ -466,3 +469,47 @@ def locate(spec, mem, off, steps):
         else:
             raise ValueError(st)
     return spec, off
+
+
+# --------------------------------------------------------------------------
+# synthetic header contents (C02, second engine)
+# --------------------------------------------------------------------------
+
+
+def perturb_headers(spec, mem, off, rnd, log):
+    """In place, on a bytearray image of a reference-free object: give header words values the Python writer never
+    produces but that the documented address expressions must honour:
+      * N-D dynamic-shape arrays of static items: the stride words are multiplied by random factors;
+      * arrays of dynamically sized items: the item-offset table is permuted (every entry still points to an item).
+    Recurses into the parts (located with the words as they now are)."""
+    k = spec["k"]
+    if k == "struct":
+        _, pos = struct_layout(spec, mem, off)
+        for fn, ft in spec["fields"]:
+            perturb_headers(ft, mem, pos[fn], rnd, log)
+    elif k == "array":
+        lay = array_layout(spec, mem, off)
+        nd = len(spec["shape"])
+        if lay["header_strides"] is not None and lay["table_offset"] is None and lay["n"] > 0:
+            # strides live after [size][dynamic dims]
+            ndyn = sum(1 for d in spec["shape"] if d is None)
+            at = off + 8 + 8 * ndyn
+            for a in range(nd):
+                f = rnd.choice([1, 1, 2, 3, 5])
+                new = lay["header_strides"][a] * f + rnd.choice([0, 0, 8])
+                mem[at + 8 * a : at + 8 * a + 8] = int(new).to_bytes(8, "little", signed=True)
+            log.add("strides_scaled")
+        elif lay["table_offset"] is not None and lay["n"] > 1:
+            at = off + lay["table_offset"]
+            words = [bytes(mem[at + 8 * j : at + 8 * j + 8]) for j in range(lay["n"])]
+            rnd.shuffle(words)
+            for j, w in enumerate(words):
+                mem[at + 8 * j : at + 8 * j + 8] = w
+            log.add("item_table_permuted")
+        if spec["item"]["k"] in ("struct", "array") and lay["table_offset"] is not None:
+            lay = array_layout(spec, mem, off)
+            for j in range(lay["n"]):
+                rel = i64(mem, off + lay["table_offset"] + 8 * j)
+                perturb_headers(spec["item"], mem, off + rel, rnd, log)
+        # static items of a static-item array hold no header words of their own that could differ per item,
+        # except nested dynamic-shape... those are dynamic items; nothing to do
